@@ -10,6 +10,13 @@ def run(tier, seed):
     chk = vlib.Check(PID, tier, seed)
     quick = tier == "quick"
     vlib.tlc_check(chk, "H_RWLock abstract object, exhaustive", os.path.join(SPEC, "H_RWLock.tla"), os.path.join(SPEC, "H_RWLockMC.cfg"), timeout=600)
+    d = os.path.join(VERIF, "spec", "sync")
+    vlib.tlc_check(chk, "RWLockProto: monitor of internal mutex + condition variable + write_flag / reader_count as coded, exhaustive incl. liveness",
+                   os.path.join(d, "RWLockProto.tla"), os.path.join(d, "RWLockProtoMC.cfg"), timeout=600)
+    r = vlib.tlc_check(chk, "RWLockProto skipping the broadcast when the wait list looks empty (must be violated: lost wake-up)",
+                       os.path.join(d, "RWLockProto.tla"), os.path.join(d, "RWLockProtoSkip.cfg"), timeout=600, expect="violation")
+    if not r["violated"]:
+        raise vlib.Broken("the skip-broadcast variant of RWLockProto is not rejected: the properties are vacuous")
     vlib.history_check(chk, "d_sync", ["rwlock"], "H_RWLock", quick, seed, what="rwlock history is not a history of a linearizable reader-writer lock")
     chk.assumptions += ["serialized mode explores sequentially consistent interleavings of the hooked atomic operations",
                         "scenario scripts follow a discipline under which a correct implementation terminates; a run that ends in deadlock/stuck/budget is reported as a progress violation"]
